@@ -1,6 +1,8 @@
 package openapi
 
 import (
+	"fmt"
+
 	"github.com/jsightapi/jsight-api-core/catalog"
 )
 
@@ -15,6 +17,13 @@ type OpenAPI struct {
 }
 
 func NewOpenAPI(c *catalog.Catalog) (oa *OpenAPI, err Error) {
+	defer func() {
+		// The converters panic on the schemas which they cannot represent.
+		if r := recover(); r != nil {
+			oa, err = nil, newErr(fmt.Sprintf("cannot convert the catalog to OpenAPI: %v", r))
+		}
+	}()
+
 	paths, err := newPaths(c)
 	if err != nil {
 		return nil, err
